@@ -5,11 +5,20 @@ export GOFLAGS=-mod=mod GOPROXY=off GOSUMDB=off GOTOOLCHAIN=local
 cd /verif/seeded
 ids="$@"; [ -z "$ids" ] && ids=$(ls)
 for id in $ids; do
-  P=$(python3 -c "import json;print(json.load(open('$id/meta.json'))['breaks_property'] if not '$id'.startswith('R2-') else '$id'.split('-')[1])")
+  P=$(echo "$id" | grep -o 'C[0-9][0-9]' | head -1)
   WT=/tmp/seedwt/$id; rm -rf $WT; git -C /repo worktree prune
   git -C /repo worktree add -q $WT HEAD || { echo "$id worktree-failed"; continue; }
   s=$(date +%s)
   if ( cd $WT && git apply /verif/seeded/$id/patch.diff ); then
+    if [ -n "${CONFIRM:-}" ]; then
+      # full confirmation: builds, the suite passes with the change, the demonstration fails with it and passes without
+      pk=.; grep -q '^package dag' /verif/seeded/$id/demo_test.go && pk=dag
+      ( cd $WT && go build ./... && go test -vet=off -count=1 ./... >/dev/null 2>&1 ) || echo "$id CONFIRM suite-fails-with-change"
+      cp /verif/seeded/$id/demo_test.go $WT/$pk/zz_seed_demo_test.go
+      ( cd $WT && go test -vet=off -count=1 -run 'TestMut|Mut|Demo|Seed' ./$pk >/dev/null 2>&1 ) && echo "$id CONFIRM demo-passes-with-change(!)"
+      ( cd $WT && git apply -R /verif/seeded/$id/patch.diff && go test -vet=off -count=1 -run 'TestMut|Mut|Demo|Seed' ./$pk >/dev/null 2>&1 ) || echo "$id CONFIRM demo-fails-without-change(!)"
+      ( cd $WT && rm -f $pk/zz_seed_demo_test.go && git apply /verif/seeded/$id/patch.diff )
+    fi
     VERIF_EVIDENCE_DIR=/tmp/seedwt/evidence /verif/bin/symgo check $P quick --repo $WT >/tmp/seedwt/$id.log 2>&1; rc=$?
   else rc=apply-failed; fi
   e=$(date +%s)
